@@ -12,10 +12,16 @@ def _work(i):
     from .harness import run_vcase
     c = _CASES[i]
     t0 = time.time()
-    if hasattr(c, "run"):
-        r = c.run(_SEED)
-    else:
-        r = run_vcase(c, seed=_SEED, **_KW)
+    from .core import OutsideExplorer
+    try:
+        if hasattr(c, "run"):
+            r = c.run(_SEED)
+        else:
+            r = run_vcase(c, seed=_SEED, **_KW)
+    except OutsideExplorer as e:
+        r = {"name": getattr(c, "name", "?"), "key": getattr(c, "key", {}), "obligations": 1, "discharged": 0, "backends": {}, "paths": 0, "solver_s": 0.0, "failures": [],
+             "undecided": [{"obligation": "%s.symbolic_run %s" % (getattr(c, "name", "?"), getattr(c, "key", {})), "reason": str(e)[:300]}], "errors": [], "notes": [],
+             "status": "ok", "faithful": 0, "sample": None}
     r["index"] = i
     r["wall"] = time.time() - t0
     return r
